@@ -59,7 +59,7 @@ struct LSpec {
     font_page: usize,
     rows: Vec<Vec<CK>>,
     /// 0 a normal layer, 1 an image layer (role Image, one 8x16 RGBA picture), 2 an image layer whose picture was removed (a cell was
-    /// written on its first row)
+    /// written on its first row), 3 an image layer that holds its picture and visible cells (a cell written on its second row)
     image: u8,
 }
 
@@ -90,9 +90,11 @@ impl LSpec {
         l.properties.is_alpha_channel_locked = self.flags & 16 != 0;
         if self.image != 0 {
             l.role = icy_engine::Role::Image;
-            if self.image == 1 {
-                // an image layer holds its picture only (the format stores RGBA data for it)
-                l.lines.clear();
+            if self.image == 1 || self.image == 3 {
+                // an image layer holds its picture only (the format stores RGBA data for it); variant 3 keeps the cells next to it
+                if self.image == 1 {
+                    l.lines.clear();
+                }
                 let data: Vec<u8> = (0..8 * 16 * 4).map(|i| (i * 7 % 251) as u8).collect();
                 l.sixels.push(icy_engine::Sixel::from_data((8, 16), 1, 1, data));
             }
@@ -101,7 +103,7 @@ impl LSpec {
     }
     fn json(&self) -> Value {
         json!({"title": self.title, "size": [self.w, self.h], "offset": [self.ox, self.oy], "flags(visible,locked,pos-locked,alpha,alpha-locked)": self.flags, "mode": self.mode, "color_tag": self.color,
-               "transparency": self.transparency, "default_font_page": self.font_page, "image_layer": (["no", "picture 8x16", "role image, picture removed"][self.image as usize]), "rows": self.rows.iter().map(|r| r.iter().map(|k| format!("{k:?}")).collect::<Vec<_>>()).collect::<Vec<_>>()})
+               "transparency": self.transparency, "default_font_page": self.font_page, "image_layer": (["no", "picture 8x16", "role image, picture removed", "picture 8x16 and visible cells"][self.image as usize]), "rows": self.rows.iter().map(|r| r.iter().map(|k| format!("{k:?}")).collect::<Vec<_>>()).collect::<Vec<_>>()})
     }
 }
 
@@ -287,6 +289,9 @@ fn compare(a: &Buffer, b: &Buffer) -> Option<(String, Value)> {
         for yy in 0..x.get_height() {
             for xx in 0..x.get_width() {
                 let (c, d) = (x.get_char((xx, yy)), y.get_char((xx, yy)));
+                if c.is_visible() != d.is_visible() && x.role == icy_engine::Role::Image && !x.sixels.is_empty() {
+                    return Some(("image-layer-cell".into(), json!({"layer": i, "x": xx, "y": yy, "saved_visible": c.is_visible()})));
+                }
                 if c.is_visible() != d.is_visible() {
                     return Some(("cell-visibility".into(), json!({"layer": i, "x": xx, "y": yy, "saved_visible": c.is_visible()})));
                 }
@@ -392,8 +397,8 @@ fn dims() -> Vec<Dim> {
         Dim { name: "colour tag", n: 2, apply: |d, v| t(d).color = v == 1 },
         Dim { name: "transparency", n: 3, apply: |d, v| t(d).transparency = [0, 1, 255][v] },
         Dim { name: "default font page", n: 3, apply: |d, v| t(d).font_page = [0, 255, 300][v] },
-        Dim { name: "image layer", n: 6, apply: |d, v| {
-            let (img, ox, oy) = [(1u8, 0, 0), (1, 1, 1), (1, -1, 0), (1, 3, 2), (1, 0, -1), (2, 0, 0)][v];
+        Dim { name: "image layer", n: 7, apply: |d, v| {
+            let (img, ox, oy) = [(1u8, 0, 0), (1, 1, 1), (1, -1, 0), (1, 3, 2), (1, 0, -1), (2, 0, 0), (3, 0, 0)][v];
             t(d).image = img;
             t(d).ox = ox;
             t(d).oy = oy;
